@@ -27,6 +27,9 @@ Line-protocol front end of the C06 model.
   `family_semilinear` speak about) from the arguments, and evaluated exactly at Gaussian dyadic rationals (`OpIR.CDy`: every float is one) on every
   input vector. `ARG` is `v CLIST` (a vector), `m NROWS CLIST` (a matrix, row major) or `-` (an absent optional
   part); `CLIST = [re,im,re,im,…]`. `expect` is `Family.conj` of the family.
+* `C06 denote-family-blocks R FAMILY ARG… @ X1 @ X2 …` → the same, with `OpIR.denoteBlocks`: every input is a polarised
+  field stored component after component (`R` = 2 or 4 components of equal length); the family's term is applied to
+  each component (`family_semilinear_blocks`).
 -/
 namespace HcipyVerif.Driver.C06
 open HcipyVerif.Proto HcipyVerif.OpIR HcipyVerif.Effects
@@ -171,6 +174,21 @@ def step (st : St) : List String → St × String
         | none => (st, "bad-args")
       | _, _ => (st, "bad-op")
     | _, _ => (st, "bad-op")
+  | "denote-family-blocks" :: reps :: fam :: rest =>
+    match parseNat? reps, HcipyVerif.Elements.Family.ofString? fam, splitAt rest with
+    | some r, some f, argToks :: inputs =>
+      match parseArgs (argToks.length + 1) argToks, inputs.mapM (fun g => match g with
+          | [v] => parseCList? v
+          | _ => none) with
+      | some args, some xs =>
+        if xs.isEmpty || r = 0 || xs.any (fun x => x.length % r != 0) then (st, "bad-op") else
+        match HcipyVerif.Elements.familyTerm f args with
+        | some t =>
+          let outs := xs.map fun x => showCList (denoteBlocks CDy.conj t (x.length / r) r x)
+          (st, s!"ok par={showParity (parity t)} expect={showParity (some f.conj)} {" ".intercalate outs}")
+        | none => (st, "bad-args")
+      | _, _ => (st, "bad-op")
+    | _, _, _ => (st, "bad-op")
   | _ => (st, "bad-op")
 
 end HcipyVerif.Driver.C06
